@@ -10,91 +10,125 @@ import (
 	"osmcheck/core"
 )
 
+// c18InitResult is what package initialisation establishes about the table.
+type c18InitResult struct {
+	final   c18UF             // facts of the table when initialisation is over
+	touched bool              // some initialiser decodes the literal or assigns the table
+	loops   []c18LoopDiag     // loops over tracked slices seen on the way
+	writes  map[ast.Node]bool // assignments to the table the analysis has accounted for
+	reasons []string
+	ok      *c18LoopDiag
+}
+
+func c18NewFlowEnv(r *core.R, c *c18Ctx, lit *c18Lit, writes map[ast.Node]bool) *c18FlowEnv {
+	return &c18FlowEnv{r: r, c: c, lit: lit, tableP: map[types.Object]types.Object{}, entryP: map[types.Object]bool{}, valsP: map[types.Object]bool{},
+		addrOf: map[*ast.CallExpr]types.Object{}, writes: writes}
+}
+
+// c18InitFacts runs the must-analysis over package initialisation in execution order: the initialiser of the
+// table's declaration (a call of a package function that decodes, sorts and returns the slice), then every
+// init function. The table may be filled through &table as the target of json.Unmarshal, or by assigning it
+// a slice that was decoded into a local and sorted there (possibly in a helper that returns it).
+func c18InitFacts(r *core.R, c *c18Ctx, lit *c18Lit) *c18InitResult {
+	res := &c18InitResult{writes: map[ast.Node]bool{}}
+	st := c18Flow{f: map[types.Object]c18UF{}}
+	collect := func(env *c18FlowEnv) {
+		res.touched = res.touched || env.reach
+		res.loops = append(res.loops, env.loops...)
+	}
+	if e := c18VarInit(c.pk, c.table); e != nil {
+		if call, ok := ast.Unparen(e).(*ast.CallExpr); ok {
+			if fd2 := c.funcs[callee(c.info, call)]; fd2 != nil {
+				env := c18NewFlowEnv(r, c, lit, res.writes)
+				env.stack, env.active = []*ast.CallExpr{call}, []*ast.FuncDecl{fd2}
+				if _, rv, ret := env.flow(fd2, st); ret {
+					st = st.with(c.table, rv)
+					env.reach = true
+				}
+				collect(env)
+			}
+		}
+	}
+	for _, fd := range c18FuncDecls(c.pk) {
+		if fd.Name.Name != "init" || fd.Recv != nil {
+			continue
+		}
+		env := c18NewFlowEnv(r, c, lit, res.writes)
+		env.active = []*ast.FuncDecl{fd}
+		out, _, ret := env.flow(fd, st)
+		if !env.reach {
+			continue // this init does not touch the table
+		}
+		collect(env)
+		if !ret {
+			continue
+		}
+		if !out.f[c.table].u {
+			res.reasons = append(res.reasons, fmt.Sprintf("the init function at %s can finish without the table holding the unmarshalled literal", r.P.Rel(fd.Pos())))
+		}
+		st = out
+	}
+	res.final = st.f[c.table]
+	// helpers are analysed once per call and fixpoint round: keep the last diagnosis of each loop
+	last := map[token.Pos]int{}
+	var ls []c18LoopDiag
+	for _, l := range res.loops {
+		if i, ok := last[l.pos]; ok {
+			ls[i] = l
+		} else {
+			last[l.pos] = len(ls)
+			ls = append(ls, l)
+		}
+	}
+	res.loops = ls
+	good := false
+	for i := range res.loops {
+		l := &res.loops[i]
+		at := r.P.Rel(l.pos)
+		switch {
+		case !l.hasSort && l.copyAsg:
+			res.reasons = append(res.reasons, fmt.Sprintf("the loop at %s assigns to the %s field of the range-value copy, which never reaches %s", at, c.valsF.Name(), c.table.Name()))
+		case !l.hasSort:
+			res.reasons = append(res.reasons, fmt.Sprintf("the loop at %s contains no in-place sort (sort.Strings / sort.StringSlice(..).Sort() / sort.Sort(sort.StringSlice(..)) / slices.Sort, directly or in a helper) of the entry's %s", at, c.valsF.Name()))
+		case !l.everyIter:
+			res.reasons = append(res.reasons, fmt.Sprintf("some iterations of the loop at %s reach the next entry without passing `%s`: those entries stay unsorted", at, l.sortText))
+		case !l.onlyHead:
+			res.reasons = append(res.reasons, fmt.Sprintf("the loop at %s can be left before the last entry: the remaining entries stay unsorted", at))
+		case !l.loaded:
+			res.reasons = append(res.reasons, fmt.Sprintf("the literal has not necessarily been unmarshalled into the slice when the sorting loop at %s starts (sorting an empty or a different slice)", at))
+		default:
+			good, res.ok = true, l
+		}
+	}
+	switch {
+	case len(res.loops) == 0:
+		res.reasons = append(res.reasons, "initialisation has no loop over the decoded slice after the unmarshal")
+	case good && res.final.u && !res.final.s:
+		res.reasons = append(res.reasons, "initialisation can finish without completing the sorting loop, or the table is decoded or assigned again after it (from a slice that is not the sorted one)")
+	}
+	return res
+}
+
 // c18CheckSorted discharges "value lists sorted before use".
-func c18CheckSorted(r *core.R, c *c18Ctx, lit *c18Lit, sc string, unsorted []string) {
+func c18CheckSorted(r *core.R, c *c18Ctx, lit *c18Lit, sc string, unsorted []string, res *c18InitResult) {
 	if len(unsorted) == 0 {
 		r.OKTrivial(sc, lit.expr.Pos(), "every value list of the embedded literal is already in ascending order")
 		return
 	}
 	need := fmt.Sprintf("value lists of %v are not in ascending order in the literal, and sort.SearchStrings on an unsorted list misses members", unsorted)
-	var inits []*ast.FuncDecl
-	for _, fd := range c18FuncDecls(c.pk) {
-		if fd.Name.Name == "init" && fd.Recv == nil {
-			inits = append(inits, fd)
-		}
-	}
-	loadedSomewhere := false
-	var reasons []string
-	for _, fd := range inits {
-		env := &c18FlowEnv{r: r, c: c, lit: lit, entryP: map[types.Object]bool{}, valsP: map[types.Object]bool{}, active: []*ast.FuncDecl{fd}}
-		out, ret := env.flow(fd, c18Flow{})
-		if !env.reach {
-			continue // this init does not touch the table
-		}
-		{ // helpers are analysed once per call and fixpoint round: keep the last diagnosis of each loop
-			last := map[token.Pos]int{}
-			var ls []c18LoopDiag
-			for _, l := range env.loops {
-				if i, ok := last[l.pos]; ok {
-					ls[i] = l
-				} else {
-					last[l.pos] = len(ls)
-					ls = append(ls, l)
-				}
-			}
-			env.loops = ls
-		}
-		if ret && out.u && out.s {
-			var ok *c18LoopDiag
-			for i := range env.loops {
-				if l := &env.loops[i]; l.everyIter && l.onlyHead && l.loaded && l.hasSort {
-					ok = l
-				}
-			}
-			pos, elem, st := lit.call.Pos(), "?", "?"
-			if ok != nil {
-				pos, elem, st = ok.sortPos, ok.elem, ok.sortText
-			}
-			r.OK(sc, pos, "literal lists of %v are unsorted, but on every path through init the json.Unmarshal into %s is followed by a complete loop over %[2]s (element `%s`) in which every iteration passes `%s` (in place on the shared backing array), and every normal exit of init lies behind that loop", unsorted, c.table.Name(), elem, st)
-			return
-		}
-		if ret && out.u {
-			loadedSomewhere = true
-		}
-		if ret && !out.u {
-			reasons = append(reasons, fmt.Sprintf("the init function at %s can finish without having unmarshalled the literal", r.P.Rel(fd.Pos())))
-		}
-		good := false
-		for _, l := range env.loops {
-			at := r.P.Rel(l.pos)
-			switch {
-			case !l.hasSort && l.copyAsg:
-				reasons = append(reasons, fmt.Sprintf("the loop at %s assigns to the %s field of the range-value copy, which never reaches %s", at, c.valsF.Name(), c.table.Name()))
-			case !l.hasSort:
-				reasons = append(reasons, fmt.Sprintf("the loop at %s contains no in-place sort (sort.Strings / sort.StringSlice(..).Sort() / sort.Sort(sort.StringSlice(..)) / slices.Sort, directly or in a helper) of the entry's %s", at, c.valsF.Name()))
-			case !l.everyIter:
-				reasons = append(reasons, fmt.Sprintf("some iterations of the loop at %s reach the next entry without passing `%s`: those entries stay unsorted", at, l.sortText))
-			case !l.onlyHead:
-				reasons = append(reasons, fmt.Sprintf("the loop at %s can be left before the last entry: the remaining entries stay unsorted", at))
-			case !l.loaded:
-				reasons = append(reasons, fmt.Sprintf("json.Unmarshal has not necessarily run when the sorting loop at %s starts (sorting an empty table)", at))
-			default:
-				good = true
-			}
-		}
-		switch {
-		case len(env.loops) == 0:
-			reasons = append(reasons, "init has no loop over "+c.table.Name()+" after the unmarshal")
-		case good && ret && out.u && !out.s:
-			reasons = append(reasons, "init can finish without completing the sorting loop, or unmarshals again after it")
-		}
-	}
 	switch {
-	case len(inits) == 0 || (!loadedSomewhere && len(reasons) == 0):
-		r.Unknown(sc, lit.call.Pos(), "%s; the unmarshal is in %s, which no package init function runs on every path, so the rule cannot order it before the first search", need, lit.fd.Name.Name)
+	case res.final.u && res.final.s:
+		pos, elem, st := lit.call.Pos(), "?", "?"
+		if res.ok != nil {
+			pos, elem, st = res.ok.sortPos, res.ok.elem, res.ok.sortText
+		}
+		r.OK(sc, pos, "literal lists of %v are unsorted, but on every path through package initialisation the json.Unmarshal of the literal is followed by a complete loop over the decoded slice (element `%s`) in which every iteration passes `%s` (in place on the shared backing array), that slice is (or ends up in) %s, and every normal exit lies behind that loop", unsorted, elem, st, c.table.Name())
+	case !res.touched:
+		r.Unknown(sc, lit.call.Pos(), "%s; the unmarshal is in %s, which neither the table's declaration nor a package init function runs, so the rule cannot order it before the first search", need, lit.fd.Name.Name)
 	default:
+		reasons := res.reasons
 		if len(reasons) == 0 {
-			reasons = append(reasons, "no path-independent sort of every entry was found in init")
+			reasons = append(reasons, "no path-independent sort of every entry was found in package initialisation")
 		}
 		r.Bad(sc, lit.call.Pos(), "%s; %s", need, strings.Join(reasons, "; "))
 	}
